@@ -31,6 +31,9 @@ def run(chk, repo):
     chk.rule("C01-R1", "advertised dtype table == decode table (C12-Y2/Y5)", 6)
     chk.attempt(y1, chk, repo)
     chk.attempt(dtype_tables_agree, chk, repo)
+    from .c01 import r2 as decode_dtype
+    chk.rule("C01-R2", "the decode path ends in one of the advertised dtypes (declared dtype == loaded dtype)", 1)
+    chk.attempt(decode_dtype, chk, repo)
     chk.attempt(y3, chk, repo)
     chk.rule("C12-Y8", "in the inferred output schema every attribute is a scalar / string / (nested) list or tuple of those, and no variable holds dicts or (value, attrs) pairs", 400)
     chk.attempt(y8, chk, repo)
